@@ -134,10 +134,15 @@ def check(run, ctx):
     read = {n.slice.value for f in (ev, bv) for n in inline.flat_nodes(repo, f) if isinstance(n, ast.Subscript) and isinstance(n.slice, ast.Constant) and isinstance(n.slice.value, str) and ast.unparse(n.value) == _mpar(f)}
     (run.ok(T4, "readers", f"read {sorted(read)}") if read <= RECORD_KEYS else run.finding(T4, "evaluate_metrics/build_violation", f"reads-unknown:{sorted(read - RECORD_KEYS)}", "a key is read that no analyzer writes", ev.loc))
     # the counts in the record come from the count functions of that language
+    from ..util import expand_locals as _xl4
     for lang, r in recs.items():
         src = {k: ast.unparse(v) for k, v in r.items()}
-        if src.get("method_count") == "method_count" and src.get("loc") == "loc":
-            run.ok(T4, f"{lang} record values", "method_count/loc are the computed locals")
+        owner = next((f_ for f_ in repo.funcs.values() if f_.parent is None and any(x is r.get("method_count") for x in ast.walk(f_.node))), None)
+        mc = _xl4(owner.node, r["method_count"]) if owner is not None and "method_count" in r else None
+        lc = _xl4(owner.node, r["loc"]) if owner is not None and "loc" in r else None
+        # whatever the locals are called: the fields are the results of this language's method counter and LOC counter
+        if isinstance(mc, ast.Call) and "method" in (call_name(mc) or "") and isinstance(lc, ast.Call) and "loc" in (call_name(lc) or "").lower():
+            run.ok(T4, f"{lang} record values", f"method_count = {call_name(mc)}(...), loc = {call_name(lc)}(...)")
         else:
             run.finding(T4, f"{lang} record", f"values:{src.get('method_count')}/{src.get('loc')}", "record fields are not the computed counts", "")
 
